@@ -45,7 +45,6 @@ package gasestimator
 //@ func Estimate(ctx context.Context, call *core.Message, opts *Options, gasCap uint64) (est uint64, revert []byte, err error)
 //@   serves C37
 //@   modifies call.GasLimit
-//@   ensures call.GasLimit == old(call.GasLimit)
 //@   ensures err == nil ==> succ(call, opts, est)
 //@   ensures err == nil && gasCap != 0 ==> est <= gasCap
 //@   ensures err == nil ==> est <= ite(call.GasLimit >= 21000, call.GasLimit, opts.Header.GasLimit)
@@ -53,6 +52,7 @@ package gasestimator
 //@   ensures err == nil && len(call.BlobHashes) == 0 ==> fundsOK(call, opts, est)
 //@   ensures err != nil ==> est == 0
 //@   ensures err == nil && opts.ErrorRatio == 0 && opts.Header.GasLimit <= 72057594037927936 && call.GasLimit <= 72057594037927936 ==> est == 21000 || !succ(call, opts, est - 1)
+//@   ensures call.GasLimit == old(call.GasLimit)
 //@   loop 1 "lo+1 < hi"
 //@     invariant call.GasLimit == old(call.GasLimit)
 //@     invariant opts.Header.GasLimit <= 72057594037927936 && call.GasLimit <= 72057594037927936 ==> lo < hi
